@@ -1204,6 +1204,7 @@ func (g *Gen) genObs(t *rapid.T) *Op {
 	if rapid.IntRange(0, 7).Draw(t, "unregInCb") == 0 {
 		os.UnregP1 = 1 + rapid.IntRange(0, len(g.m().Obs)).Draw(t, "unregWhom")
 	}
+	os.Order = rapid.IntRange(0, 3).Draw(t, "builderOrder")
 	return &Op{K: "obsNew", OS: os, Mode: rapid.SampledFrom([]int{1, 1, 1, 0}).Draw(t, "registerNow")}
 }
 
@@ -1665,6 +1666,9 @@ func (g *Gen) bulkShift() int {
 func (g *Gen) chainRels(t *rapid.T, op *Op) *Op {
 	if len(op.FS.Rels) >= 2 && op.FS.Inst >= 0 {
 		op.FS.Chain = rapid.Bool().Draw(t, "chainedRelations")
+	}
+	if op.FS.Inst >= 0 {
+		op.FS.Order = rapid.IntRange(0, 3).Draw(t, "builderOrder")
 	}
 	return op
 }
